@@ -65,7 +65,7 @@ fn band_version_requirement() -> semver::VersionReq {
 fn band_version_supported(version: &str) -> bool {
     semver::Version::parse(version)
         .map(|sv| band_version_requirement().matches(&sv))
-        .unwrap()
+        .unwrap_or(false)
 }
 
 /// Each backup makes a new `band` containing an index directory.
